@@ -220,8 +220,26 @@ class _Canon(ast.NodeTransformer):
             return False
         return any(isinstance(s_, ast.Break) or rec(s_) for s_ in stmts)
 
+    # ---- the counter on the right: `for x, i in zip(X, itertools.count([k]))` is `for i, x in enumerate(X[, k])` (same pairs, the two
+    # targets swapped); in `for` statements and comprehension clauses with a two-element target
+    def _counter_second(self, target, it):
+        if isinstance(it, ast.Call) and isinstance(it.func, ast.Name) and it.func.id == "zip" and len(it.args) == 2 and not it.keywords \
+                and not any(isinstance(a, ast.Starred) for a in it.args) and isinstance(target, (ast.Tuple, ast.List)) and len(target.elts) == 2 \
+                and not any(isinstance(e, ast.Starred) for e in target.elts):
+            x, c = it.args
+            if isinstance(c, ast.Call) and not c.keywords and self._itertools(c.func) == "count" and len(c.args) <= 1 \
+                    and not (isinstance(x, ast.Call) and self._itertools(x.func) == "count"):
+                new_it = ast.copy_location(ast.Call(func=ast.copy_location(ast.Name(id="enumerate", ctx=ast.Load()), it.func), args=[x] + list(c.args), keywords=[]), it)
+                new_tg = ast.copy_location(type(target)(elts=[target.elts[1], target.elts[0]], ctx=target.ctx), target)
+                return new_tg, new_it
+        return None
+
     def visit_For(self, n):
         n = self.generic_visit(n)
+        sw = self._counter_second(n.target, n.iter)
+        if sw is not None:
+            n.target, n.iter = sw
+            ast.fix_missing_locations(n)
         it = n.iter
         # product(A, repeat=k) with a literal k is product(A, A, .. k times)
         if isinstance(it, ast.Call) and self._itertools(it.func) == "product" and len(it.args) == 1 and len(it.keywords) == 1 and it.keywords[0].arg == "repeat" \
@@ -284,6 +302,10 @@ class _Canon(ast.NodeTransformer):
     def visit_comprehension(self, n):
         self.generic_visit(n)
         n.ifs = [self._truth(c) for c in n.ifs]
+        sw = self._counter_second(n.target, n.iter)
+        if sw is not None:
+            n.target, n.iter = sw
+            ast.fix_missing_locations(n)
         return n
 
     def visit_UnaryOp(self, n):
